@@ -16,7 +16,6 @@ package main
 
 import (
 	"bytes"
-	"errors"
 	"fmt"
 	"io"
 	"os"
@@ -110,13 +109,7 @@ type actT struct {
 
 const maxErr = 4096
 
-var errTab [maxErr]error
-
-func init() {
-	for i := range errTab {
-		errTab[i] = errors.New(fmt.Sprintf("verif-dest-error-%d", i))
-	}
-}
+// errTab (errvalues.go): the error value an outcome {err, E} makes the destination return
 
 type runtimeT struct {
 	om    [][]outT
@@ -221,7 +214,7 @@ func classify(err error) (string, int) {
 		return "short", -1
 	}
 	for i, e := range errTab {
-		if e == err {
+		if sameErr(e, err) {
 			return fmt.Sprintf("dest:%d", i), i
 		}
 	}
@@ -302,7 +295,11 @@ func runCaseHooked(c *Ctx, cs *caseT, before func(k int, filters []filterHandle)
 				stderrOff = st.Size()
 				for _, line := range strings.Split(strings.TrimSuffix(string(b), "\n"), "\n") {
 					a := actT{Kind: "stderr", Err: "unknown", ErrID: -2}
-					if strings.HasSuffix(line, ": "+io.ErrShortWrite.Error()) {
+					const stderrPrefix = "zerolog: could not write event: "
+					if id, ok := errByText[strings.TrimPrefix(line, stderrPrefix)]; ok && strings.HasPrefix(line, stderrPrefix) {
+						// the report is the text of exactly one error value of the table
+						a.Err, a.ErrID = fmt.Sprintf("dest:%d", id), id
+					} else if strings.HasSuffix(line, ": "+io.ErrShortWrite.Error()) {
 						a.Err, a.ErrID = "short", -1
 					} else if i := strings.LastIndex(line, "verif-dest-error-"); i >= 0 {
 						var id int
@@ -448,6 +445,9 @@ func caseJSON(cs *caseT, obs [][]actT) map[string]interface{} {
 		}
 	}
 	m := map[string]interface{}{"cfg": cs.Cfg, "events": cs.Evs, "reference_bytes": refs, "outcomes": cs.Om, "observed": obs}
+	if ev := errValueNotes(cs.Om); len(ev) > 0 {
+		m["error_values"] = ev // outcome {err, e}: the destination returns (0, this value); reports are matched by identity
+	}
 	if cs.Hist != nil {
 		m["history"] = cs.Hist
 		m["note"] = "the writer was constructed ONCE from history.constructed_from and used for all segments in order; before each segment the exported Level field of the listed FilteredLevelWriters was assigned. cfg above = the construction with the filter levels in force during this segment; events/outcomes/observed = this segment only"
@@ -686,7 +686,7 @@ func genCase(r *Rng) *caseT {
 // ---------------------------------------------------------------- driver
 
 func runC14(c *Ctx) {
-	c.Res.Rule = "a case is (writer configuration: wrappers around MultiLevelWriter or a single destination, per destination a wrapper chain of SyncWriter/FilteredLevelWriter/LevelWriterAdapter over an io.Writer or LevelWriter fake; events with level/message/field; outcome matrix ok|error value|short write per event and destination); observed = per logging call the ordered trace of destination calls (entry, level, bytes), ErrorHandler/stderr reports (error identity) and done. Bounded-exhaustive: all 3-outcome matrices for <=3 destinations x <=2 events (thorough: <=3 events) over 4 fixed kind assignments, the full filter-level x event-level grid; then seeded random (<=5 destinations, <=6 events, chains <=3); retune histories: one writer constructed once and used over 2-4 segments, the exported Level field of its FilteredLevelWriters assigned between segments (directed grid: every ordered pair old/new level x six filter positions x events at all levels before and after; seeded random), each segment shipped as one case under the levels then in force. non-trivial = at least one reached destination fails and at least two destinations are configured; distinct by case text"
+	c.Res.Rule = fmt.Sprintf("a case is (writer configuration: wrappers around MultiLevelWriter or a single destination, per destination a wrapper chain of SyncWriter/FilteredLevelWriter/LevelWriterAdapter over an io.Writer or LevelWriter fake; events with level/message/field; outcome matrix ok|error value|short write per event and destination; the error value of an outcome is one of %d kinds - opaque errors, the standard library sentinels themselves (os.ErrClosed, io.EOF, io.ErrClosedPipe, context.Canceled, net.ErrClosed, syscall errnos, ...), values wrapping them (%%w, *fs.PathError, *os.SyscallError, *net.OpError, multi-errors), Timeout/Temporary answers, an error whose Is matches every target, an empty text - directed sweep of every kind in sentinel and wrapped form through five destination positions with ErrorHandler and with the stderr fallback, and mixed into every other stream by error id); observed = per logging call the ordered trace of destination calls (entry, level, bytes), ErrorHandler/stderr reports (error identity) and done. Bounded-exhaustive: all 3-outcome matrices for <=3 destinations x <=2 events (thorough: <=3 events) over 4 fixed kind assignments, the full filter-level x event-level grid; then seeded random (<=5 destinations, <=6 events, chains <=3); retune histories: one writer constructed once and used over 2-4 segments, the exported Level field of its FilteredLevelWriters assigned between segments (directed grid: every ordered pair old/new level x six filter positions x events at all levels before and after; seeded random), each segment shipped as one case under the levels then in force. non-trivial = at least one reached destination fails and at least two destinations are configured; distinct by case text", len(errKinds))
 	var err error
 	stderrFile, err = os.Create(c.Out + "/stderr_capture.txt")
 	if err != nil {
@@ -805,6 +805,58 @@ func runC14(c *Ctx) {
 		cs.Om = [][]outT{row, {{Kind: "ok"}, {Kind: "ok"}}}
 		emit(cs, "resilient-multi-writer")
 	}
+
+	// 3b. the error VALUES a destination fails with.  "ErrorHandler is invoked exactly once for that
+	// event with that error" holds for whatever value the destination returned: every kind of the
+	// table (errvalues.go: opaque, the standard library's sentinels themselves, values wrapping
+	// them, Timeout/Temporary answers, an Is-matches-everything error, an empty text), both the
+	// sentinel form and the wrapped form of each, through every place a destination can sit, with
+	// ErrorHandler set and with the stderr fallback, followed by clean events.
+	errSweep := 0
+	for id := 0; id < 2*len(errKinds); id++ {
+		other := (id + 7) % (2 * len(errKinds)) // a second failing destination with another kind of value
+		ok := outT{Kind: "ok"}
+		bad := outT{Kind: "err", E: id}
+		bad2 := outT{Kind: "err", E: other}
+		short := outT{Kind: "short", N: 2}
+		syncd := func(d destT) destT {
+			return destT{Leaf: d.Leaf, Wraps: append([]wrapT{{Kind: "sync"}}, d.Wraps...)}
+		}
+		type shapeT struct {
+			cfg cfgT
+			om  [][]outT // four events: ok, failing, failing again, ok
+		}
+		shapes := []shapeT{
+			// the only destination, no MultiLevelWriter
+			{cfgT{Kind: "single", Wraps: []wrapT{}, Dests: []destT{P}}, [][]outT{{ok}, {bad}, {bad}, {ok}}},
+			// between two healthy destinations
+			{cfgT{Kind: "multi", Wraps: []wrapT{}, Dests: []destT{L, P, L}}, [][]outT{{ok, ok, ok}, {ok, bad, ok}, {ok, bad, ok}, {ok, ok, ok}}},
+			// first of two failing destinations (the first wins), then behind a short write (the short write wins)
+			{cfgT{Kind: "multi", Wraps: []wrapT{}, Dests: []destT{P, L}}, [][]outT{{ok, ok}, {bad, bad2}, {short, bad}, {ok, ok}}},
+			// last destination, behind wrappers; the whole writer under a SyncWriter
+			{cfgT{Kind: "multi", Wraps: []wrapT{{Kind: "sync"}}, Dests: []destT{L, syncd(F(0, "level")), {Leaf: "plain", Wraps: []wrapT{{Kind: "adapter"}}}}},
+				[][]outT{{ok, ok, ok}, {ok, ok, bad}, {ok, bad2, bad}, {ok, ok, ok}}},
+			// a single LevelWriter destination behind a filter
+			{cfgT{Kind: "single", Wraps: []wrapT{}, Dests: []destT{F(1, "level")}}, [][]outT{{ok}, {bad}, {bad}, {ok}}},
+		}
+		for si, sh := range shapes {
+			for _, handler := range []bool{true, false} {
+				if !handler && !c.Thorough() && (id+si)%2 != 0 {
+					continue // the stderr fallback: every value through half of the shapes
+				}
+				cs := &caseT{Cfg: sh.cfg, Om: sh.om}
+				cs.Cfg.Handler = handler
+				cs.Evs = []evT{{Level: 1, Msg: "before"}, {Level: 3, Msg: "fails", Key: "k", Val: "v"}, {Level: 2, Msg: "fails again"}, {Level: 1, Msg: "after"}}
+				if (id+si)%5 == 0 {
+					cs.Evs[2].Panic, cs.Evs[2].Level = true, int(zerolog.PanicLevel) // done still runs after the report
+				}
+				emit(cs, "error-values")
+				errSweep++
+			}
+		}
+	}
+	c.Res.ExtraCoverage["error_value_kinds"] = len(errKinds)
+	c.Res.ExtraCoverage["error_value_cases"] = errSweep
 
 	// 4. seeded random
 	nrand := 1500
